@@ -30,6 +30,7 @@ CONSTANTS
     MaxDepth,     \* maximum number of pending nested activations
     MaxTransfers, \* bound on the number of output-transfer records created in one transaction
     Deploys,      \* BOOLEAN: DeploySystemSC is part of Next
+    Balances,     \* BOOLEAN: GetBalance (creates output accounts) is part of Next
     KnownDefects, \* subset of AllDefects: deviations of the code that exists
     Log(_, _)     \* observation: Append for behaviour export, keep-last otherwise
 
@@ -121,6 +122,14 @@ Transfer(dest, sender, v) ==
     /\ UNCHANGED <<base, upd, sc, saved>>
     /\ hist' = Log(hist, Rec("Transfer", [dest |-> dest, sender |-> sender, v |-> v], [x |-> 0]))
 
+\* GetBalance of an address that has no output account yet creates one (delta 0) as a side effect
+GetBalance(a) ==
+    /\ a \notin DOMAIN acc
+    /\ acc' = Touch(acc, a)
+    /\ ret' = "none" /\ want' = NoWant
+    /\ UNCHANGED <<base, upd, sc, saved, nt>>
+    /\ hist' = Log(hist, Rec("GetBalance", [addr |-> a], [x |-> 0]))
+
 Frame(via, dest, sender, v) ==
     [sc |-> sc, acc |-> DoTransfer(acc, dest, sender, v), snapUpd |-> upd, snapAcc |-> acc,
      via |-> via, dest |-> dest, sender |-> sender, v |-> v]
@@ -129,7 +138,7 @@ Frame(via, dest, sender, v) ==
 \* accounts, the host context is saved (copyToNewContext shares the storageUpdate map), the
 \* callee starts with empty output accounts (softCleanCache) and its own scAddress
 Call(dest, sender, v) ==
-    /\ Depth < MaxDepth /\ nt < MaxTransfers /\ dest \in SCs
+    /\ Depth < MaxDepth /\ nt < MaxTransfers
     /\ saved' = Append(saved, Frame("exec", dest, sender, v))
     /\ acc' = Empty /\ sc' = dest /\ nt' = nt + 1
     /\ ret' = "none" /\ want' = NoWant
@@ -139,7 +148,7 @@ Call(dest, sender, v) ==
 \* DeploySystemSC up to contract.Execute: same transfer, but NO new context: the init function
 \* runs on the caller's output accounts
 Deploy(dest, v) ==
-    /\ Depth < MaxDepth /\ nt < MaxTransfers /\ dest \in SCs
+    /\ Depth < MaxDepth /\ nt < MaxTransfers
     /\ saved' = Append(saved, Frame("deploy", dest, sc, v))
     /\ acc' = DoTransfer(acc, dest, sc, v) /\ sc' = dest /\ nt' = nt + 1
     /\ ret' = "none" /\ want' = NoWant
@@ -173,7 +182,7 @@ Return(ok) ==
 \* ExecuteOnDestContext to an address without a contract: GetContract fails after the transfer, the
 \* context copy and softCleanCache; the deferred mergeContext restores the caller's accounts
 CallMissing(dest, sender, v) ==
-    /\ nt < MaxTransfers /\ dest \notin SCs
+    /\ nt < MaxTransfers
     /\ LET f == Frame("exec", dest, sender, v) IN
        /\ acc' = IF "CallValueKeptOnFailure" \in KnownDefects THEN MergeCtx(Empty, f.acc) ELSE acc
        /\ ret' = "fail" /\ want' = WantOf(f) /\ nt' = nt + 1
@@ -184,6 +193,7 @@ CallMissing(dest, sender, v) ==
 Next ==
     \/ \E k \in Keys, v \in Vals : Set(sc, k, v)
     \/ \E d \in Addrs, v \in Amounts : Transfer(d, sc, v)
+    \/ (Balances /\ \E a \in Addrs : GetBalance(a))
     \/ \E d \in SCs, v \in CallValues : Call(d, sc, v)
     \/ \E d \in Others, v \in CallValues : CallMissing(d, sc, v)
     \/ (Deploys /\ \E d \in SCs, v \in CallValues : Deploy(d, v))
@@ -200,9 +210,9 @@ Failed == ret = "fail" /\ want.on
 Inv_C40_Storage ==
     Failed => \A s \in DOMAIN upd \cup DOMAIN want.upd \cup DOMAIN base : View(upd, s) = View(want.upd, s)
 
-\* no transfer made inside the failed call is visible: the accounts are the caller's pre-call accounts,
-\* at most with the call-value transfer of this very call (judged separately below)
-Inv_C40_InnerTransfers ==
+\* no transfer (or other account change) made inside the failed call is visible: the output accounts are the
+\* caller's pre-call accounts, at most with the call-value transfer of this very call (judged separately below)
+Inv_C40_OutputAccounts ==
     Failed => \/ \A a \in DOMAIN acc \cup DOMAIN want.acc : Eff(acc, a) = Eff(want.acc, a)
               \/ \A a \in DOMAIN acc \cup DOMAIN want.acccv : Eff(acc, a) = Eff(want.acccv, a)
 
